@@ -56,6 +56,8 @@ type input struct {
 	Opts  c06.Opts           `json:"opts"`
 	Runs  int                `json:"runs,omitempty"` // number of independent pipelines (default 6)
 	Note  string             `json:"note,omitempty"`
+	// MapCase: a map builder level case (maporder.go) instead of a cluster
+	MapCase []mapHost `json:"map_case,omitempty"`
 }
 
 type ocase struct {
@@ -634,9 +636,15 @@ func main() {
 
 	var cases []ocase
 	var isCorpus []bool
+	var mapCases [][]mapHost
 	if o.Replay != "" {
 		var in input
 		hx.ReadReplay(o.Replay, &in)
+		if in.MapCase != nil {
+			mapOrderOracle(rng, res, [][]mapHost{in.MapCase}, 0)
+			res.Write(o)
+			return
+		}
 		cases = append(cases, decode(in))
 		isCorpus = append(isCorpus, true)
 	} else {
@@ -737,6 +745,9 @@ func main() {
 		}
 	}
 
+	if o.Replay == "" {
+		mapOrderOracle(rng, res, mapCases, o.Count(40, 1500))
+	}
 	if !o.Search && o.Replay == "" {
 		correspondence(o, rng, res, cw)
 	}
